@@ -177,7 +177,7 @@ class C11(Check):
                   'failure positions are few and swept: k in 0..2 for embedded applications and constructor lists); histories are sampled.')
     level_note = 'Trusted: the model routing tables and the dispatch model shared with C06.'
     forbidden_probes = ('failing-op-succeeded',)
-    required_probes = ('decorated-variant-of-an-endpoint-bound-elsewhere', 'route-with-own-middleware-bound-twice', 're-embedded-after-an-inner-application-was-dropped', 'application-reference-dropped-while-embedded', 'child-changed-after-subapplication-was-made', 'one-route-in-two-applications-with-equal-typed-stacks', 'sub-kth-fails-with-other-exception-type', 'strict-application', 'context-rendered-by-factory', 'embed-with-rebind-render', 'failed-add-unchanged', 'sub-kth-fails-unchanged', 'ctor-failed', 'route-bound-twice', 'embedded-then-child-changed',
+    required_probes = ('several-routes-added-at-a-negative-index', 'decorated-variant-of-an-endpoint-bound-elsewhere', 'route-with-own-middleware-bound-twice', 're-embedded-after-an-inner-application-was-dropped', 'application-reference-dropped-while-embedded', 'child-changed-after-subapplication-was-made', 'one-route-in-two-applications-with-equal-typed-stacks', 'sub-kth-fails-with-other-exception-type', 'strict-application', 'context-rendered-by-factory', 'embed-with-rebind-render', 'failed-add-unchanged', 'sub-kth-fails-unchanged', 'ctor-failed', 'route-bound-twice', 'embedded-then-child-changed',
                        'embed-depth-2', 'add-at-index')
 
     # ---- generation --------------------------------------------------------
@@ -218,7 +218,7 @@ class C11(Check):
                 ops.append(op)
                 continue
             i = rng.choice(sorted(live))
-            idx = rng.choice([None, None, 0, 1, 2, 5])
+            idx = rng.choice([None, None, 0, 1, 2, 5, -1, -1, -2, -7])
             if r > 0.94 and len(live) > 2:
                 # the program drops its own reference to an application (it may live on inside others) and the collector
                 # runs; afterwards an application that embeds it is itself embedded somewhere else
@@ -497,15 +497,17 @@ class C11(Check):
 
     @staticmethod
     def insert(model, new, index, res):
+        """The new routes go in CONTIGUOUSLY at the requested index (list.insert meaning of that index: negative counts
+        from the end, out of range clamps), the others keep their relative order."""
         if index is None:
             model.extend(new)
         else:
             res.probe('add-at-index')
-            # list.insert semantics of a running index
-            idx = index
-            for e in new:
-                model.insert(idx, e)   # an index beyond the end means "at the end"
-                idx += 1
+            pos = index if index >= 0 else max(0, len(model) + index)
+            pos = min(pos, len(model))
+            if index < 0 and len(new) > 1:
+                res.probe('several-routes-added-at-a-negative-index')
+            model[pos:pos] = new
 
     def check_all(self, pool, res, step, op, label):
         K = 'C11/'
